@@ -258,3 +258,5 @@ PARTS = [
     Part("lmtd", eval_lmtd, {"quick": 3000, "thorough": 100000}, strategy=strat_lmtd, min_nontrivial={"quick": 500, "thorough": 10000}),
 ]
 MIN_SHARE = {"entu": {"c=0": 0.08, "c=1": 0.08, "form=text": 0.3, "form=member": 0.3}}
+
+FUZZ = {"entu": None}  # parts also driven by the coverage-guided supplement (thorough tier)
